@@ -613,3 +613,195 @@ Section Instances.
     - unfold ok_wf. rewrite K, W. reflexivity.
   Qed.
 End Instances.
+
+(* ---------- more list helpers ---------- *)
+
+Lemma Forall2_perm_r {A B} (R : A -> B -> Prop) l1 l2 l2' :
+  Forall2 R l1 l2 -> Permutation l2 l2' -> exists l1', Permutation l1 l1' /\ Forall2 R l1' l2'.
+Proof.
+  intros HF HP. revert l1 HF. induction HP; intros l1 HF.
+  - inversion HF; subst. exists []. auto.
+  - inversion HF as [|a b la lb Hab Hrest]; subst.
+    destruct (IHHP _ Hrest) as [m [P F]]. exists (a :: m). auto.
+  - inversion HF as [|a b la lb Hab Hrest]; subst.
+    inversion Hrest as [|a2 b2 la2 lb2 Hab2 Hrest2]; subst.
+    exists (a2 :: a :: la2). split; [apply perm_swap|]. auto.
+  - destruct (IHHP1 _ HF) as [m [P F]]. destruct (IHHP2 _ F) as [m' [P' F']].
+    exists m'. split; auto. etransitivity; eauto.
+Qed.
+
+Lemma Forall2_combine_r {A B K} (R : A -> B -> Prop) (l : list A) (E : list B) (ks : list K) :
+  Forall2 R l E -> List.length ks = List.length E ->
+  Forall2 (fun a d => R a (snd d)) l (combine ks E).
+Proof.
+  intros H. revert ks. induction H; intros [|k ks] L; cbn in *; try discriminate; constructor; auto.
+Qed.
+
+Lemma Forall2_map_r {A B C} (R : A -> C -> Prop) (g : B -> C) l l' :
+  Forall2 (fun a b => R a (g b)) l l' -> Forall2 R l (map g l').
+Proof. induction 1; cbn; constructor; auto. Qed.
+
+Lemma Forall2_and_Forall {A B} (R : A -> B -> Prop) (Q : A -> Prop) (T : A -> B -> Prop) l l' :
+  Forall2 R l l' -> Forall Q l -> (forall a b, Q a -> R a b -> T a b) -> Forall2 T l l'.
+Proof. intros H. induction H; intros HQ HT; constructor; inv HQ; eauto. Qed.
+
+Lemma flat_map_Forall2_perm {A B C} (f : A -> list C) (g : B -> list C) l1 l2 :
+  Forall2 (fun a b => Permutation (f a) (g b)) l1 l2 -> Permutation (flat_map f l1) (flat_map g l2).
+Proof. induction 1; cbn; auto. apply Permutation_app; auto. Qed.
+
+Lemma seq_keys_length f es K : seq_keys f es = Ok K -> List.length K = List.length es.
+Proof.
+  unfold seq_keys. destruct (2 <=? List.length es)%nat; intros H.
+  - apply mapM_ok in H. symmetry. eapply Forall2_length'; eauto.
+  - inv H. apply map_length.
+Qed.
+
+(* ---------- what formatting may do to a document ---------- *)
+
+Section Shuffle.
+  Variables kind api : string.
+  Variable Rs : hdr -> hdr -> Prop.       (* what may happen to the header of a scalar *)
+
+  (* [shuffled p n n']: n' is n with the pairs of every mapping permuted (a key keeps its own value),
+     the elements of the whitelisted lists permuted, every other list in its order, nothing added
+     or dropped; comments, anchors, tags and styles travel with their node. *)
+  Inductive shuffled : string -> cnode -> cnode -> Prop :=
+  | sh_scalar p h h' v : Rs h h' -> shuffled p (CScalar h v) (CScalar h' v)
+  | sh_alias p h v : shuffled p (CAlias h v) (CAlias h v)
+  | sh_map p h kvs mid kvs' :
+      Permutation kvs mid ->
+      Forall2 (fun kv kv' => shuffled p (fst kv) (fst kv') /\
+                             shuffled (p ++ "." ++ cvalue (fst kv)) (snd kv) (snd kv')) mid kvs' ->
+      shuffled p (CMap h kvs) (CMap h kvs')
+  | sh_seq p h es mid es' :
+      Permutation es mid ->
+      (sort_field kind api p = None -> mid = es) ->
+      Forall2 (shuffled p) mid es' ->
+      shuffled p (CSeq h es) (CSeq h es').
+
+  Variable nonstr : string -> bool.
+  Variable srt : sorter.
+  Hypothesis HS1 : S1 srt.
+  Variable Q : sch -> Prop.               (* the schemas considered *)
+  Hypothesis Q_nil : Q SNil.
+  Hypothesis Q_field : forall s name, Q s -> Q (sch_field s name).
+  Hypothesis Q_elems : forall s, Q s -> Q (sch_elems s).
+  Hypothesis Rs_fmt : forall s h v, Q s -> Rs h (fmt_scalar nonstr s h v).
+
+  Theorem fmt_shuffled : forall n s p n',
+    Q s -> fmt_node nonstr srt kind api s p n = Ok n' -> shuffled p n n'.
+  Proof.
+    induction n as [h v|h v|h kvs IH|h es IH] using cnode_ind'; intros s p n' HQ H.
+    - cbn in H. inv H. constructor. auto.
+    - cbn in H. inv H. constructor.
+    - rewrite fmt_map_eq in H. apply bind_ok in H. destruct H as [D [HD H]]. inv H.
+      apply fpairs_ok in HD.
+      destruct (HS1 _ less_key less_key_strict_total D) as [HP _].
+      assert (HR : Forall2 (fun kv d => shuffled p (fst kv) (fst (snd d)) /\
+                     shuffled (p ++ "." ++ cvalue (fst kv)) (snd kv) (snd (snd d))) kvs D).
+      { eapply Forall2_and_Forall; [exact HD|exact IH|].
+        intros kv d [I1 I2] [R1 [R2 R3]].
+        split; [exact (I1 _ _ _ Q_nil R2)|exact (I2 _ _ _ (Q_field _ _ HQ) R3)]. }
+      destruct (Forall2_perm_r _ _ _ _ HR (Permutation_sym HP)) as [mid [PM FM]].
+      econstructor; [exact PM|]. apply Forall2_map_r. exact FM.
+    - rewrite fmt_seq_eq in H. apply bind_ok in H. destruct H as [E [HE H]].
+      apply felems_ok in HE.
+      assert (HR : Forall2 (shuffled p) es E).
+      { eapply Forall2_and_Forall; [exact HE|exact IH|]. intros e e' I R. exact (I _ _ _ (Q_elems _ HQ) R). }
+      destruct (sort_field kind api p) as [f|] eqn:SF.
+      + apply bind_ok in H. destruct H as [K [HK H]]. inv H.
+        destruct (HS1 _ String.ltb ltb_strict_total (combine K E)) as [HP _].
+        assert (LK : List.length K = List.length E).
+        { rewrite (seq_keys_length _ _ _ HK). eapply Forall2_length'; eauto. }
+        pose proof (Forall2_combine_r _ _ _ K HR LK) as HC.
+        destruct (Forall2_perm_r _ _ _ _ HC (Permutation_sym HP)) as [mid [PM FM]].
+        econstructor; [exact PM|intros X; congruence|]. apply Forall2_map_r. exact FM.
+      + inv H. econstructor; [apply Permutation_refl|auto|exact HR].
+  Qed.
+End Shuffle.
+
+(* without a schema scalars are untouched; with one only Style and Tag of a scalar may change *)
+Definition hdr_sim (h h' : hdr) : Prop :=
+  h_head h = h_head h' /\ h_line h = h_line h' /\ h_foot h = h_foot h' /\ h_anchor h = h_anchor h'.
+
+Lemma hdr_sim_refl h : hdr_sim h h.
+Proof. repeat split. Qed.
+
+Lemma fmt_scalar_sim nonstr s h v : hdr_sim h (fmt_scalar nonstr s h v).
+Proof.
+  destruct s as [|types format fs el]; cbn; [apply hdr_sim_refl|].
+  unfold fmt_nonstring. destruct types as [|t [|t2 ts]]; try apply hdr_sim_refl.
+  destruct (negb (nonstr v)); [apply hdr_sim_refl|].
+  assert (T : forall t h0, hdr_sim h h0 -> hdr_sim h (fmt_nonstring_tail t h0)).
+  { intros t0 h0 S0. unfold fmt_nonstring_tail.
+    destruct (String.eqb (h_tag h0) node_tag_null); [exact S0|].
+    destruct (assoc_str t0 type_to_tag); exact S0. }
+  destruct (String.eqb t "string" && negb (String.eqb format "int-or-string")).
+  - apply T. destruct (style_quoted (h_style h)); unfold hdr_sim; cbn; auto.
+  - destruct (String.eqb t "boolean" || String.eqb t "integer" || String.eqb t "number");
+      [|apply hdr_sim_refl].
+    apply T. destruct (style_quoted (h_style h)); unfold hdr_sim; cbn; auto.
+Qed.
+
+Theorem fmt_value_preserved_noschema nonstr srt kind api :
+  S1 srt -> forall n p n',
+  fmt_node nonstr srt kind api SNil p n = Ok n' -> shuffled kind api eq p n n'.
+Proof.
+  intros HS1 n p n'.
+  apply (fmt_shuffled kind api eq nonstr srt HS1 (fun s => s = SNil)); auto.
+  - intros s name ->. reflexivity.
+  - intros s ->. reflexivity.
+  - intros s h v ->. reflexivity.
+Qed.
+
+Theorem fmt_value_preserved nonstr srt kind api :
+  S1 srt -> forall n s p n',
+  fmt_node nonstr srt kind api s p n = Ok n' -> shuffled kind api hdr_sim p n n'.
+Proof.
+  intros HS1 n s p n'.
+  apply (fmt_shuffled kind api hdr_sim nonstr srt HS1 (fun _ => True)); auto.
+  intros. apply fmt_scalar_sim.
+Qed.
+
+(* ---------- comments ---------- *)
+
+Theorem fmt_comments nonstr srt kind api : S1 srt -> forall n s p n',
+  fmt_node nonstr srt kind api s p n = Ok n' -> Permutation (comments n') (comments n).
+Proof.
+  intros HS1.
+  induction n as [h v|h v|h kvs IH|h es IH] using cnode_ind'; intros s p n' H.
+  - cbn in H. inv H. cbn. destruct (fmt_scalar_sim nonstr s h v) as [A [B [C _]]].
+    unfold hdr_comments. rewrite <- A, <- B, <- C. apply Permutation_refl.
+  - cbn in H. inv H. apply Permutation_refl.
+  - rewrite fmt_map_eq in H. apply bind_ok in H. destruct H as [D [HD H]]. inv H.
+    apply fpairs_ok in HD.
+    destruct (HS1 _ less_key less_key_strict_total D) as [HP _].
+    cbn [comments]. apply Permutation_app_head.
+    set (c2 := fun kv : cnode * cnode => (comments (fst kv) ++ comments (snd kv))%list).
+    transitivity (flat_map c2 (map snd D)).
+    + apply Permutation_flat_map. apply Permutation_map. exact HP.
+    + rewrite flat_map_concat_map, map_map, <- flat_map_concat_map.
+      apply Permutation_sym. apply flat_map_Forall2_perm.
+      eapply Forall2_and_Forall; [exact HD|exact IH|].
+      intros kv d [I1 I2] [R1 [R2 R3]]. subst c2. cbn.
+      apply Permutation_sym. apply Permutation_app; [exact (I1 _ _ _ R2)|exact (I2 _ _ _ R3)].
+  - rewrite fmt_seq_eq in H. apply bind_ok in H. destruct H as [E [HE H]].
+    apply felems_ok in HE.
+    assert (HR : Permutation (flat_map comments E) (flat_map comments es)).
+    { apply Permutation_sym. apply flat_map_Forall2_perm.
+      eapply Forall2_and_Forall; [exact HE|exact IH|].
+      intros e e' I R. apply Permutation_sym. exact (I _ _ _ R). }
+    destruct (sort_field kind api p) as [f|] eqn:SF.
+    + apply bind_ok in H. destruct H as [K [HK H]]. inv H.
+      destruct (HS1 _ String.ltb ltb_strict_total (combine K E)) as [HP _].
+      cbn [comments]. apply Permutation_app_head.
+      transitivity (flat_map comments (map snd (combine K E))).
+      * apply Permutation_flat_map. apply Permutation_map. exact HP.
+      * assert (LK : List.length K = List.length E).
+        { rewrite (seq_keys_length _ _ _ HK). eapply Forall2_length'; eauto. }
+        assert (map snd (combine K E) = E).
+        { clear - LK. revert E LK. induction K as [|k K IHK]; intros [|e E] L; cbn in *; try discriminate; auto.
+          f_equal. apply IHK. lia. }
+        rewrite H. exact HR.
+    + inv H. cbn [comments]. apply Permutation_app_head. exact HR.
+Qed.
